@@ -5,16 +5,22 @@ CFG = {
     "required_theorems": ["RpmVerif.C01.package_roundtrip", "RpmVerif.C01.metadata_write_parse", "RpmVerif.C01.metadata_fixpoint",
                           "RpmVerif.C01.header_roundtrip", "RpmVerif.C01.lead_roundtrip",
                           "RpmVerif.C01.wf_fixpoint", "RpmVerif.C01.cleared_fixpoint"],
-    "trivial_branches": ["rejected-eof", "meta-rejected-eof"],
+    "trivial_branches": ["rejected-eof", "meta-rejected-eof", "openrt-small-rejected-eof"],
+    "cleanup_globs": ["work/c01-blobs/*.bin"],
     "rule": "asset + fixture packages (package and metadata-only entry points) and seeded structure-aware packages: arbitrary lead fields, "
             "two headers of 0..12 entries over all 10 data types with unknown/duplicated/unsorted tags, in-range offsets, non-UTF-8 strings, "
             "arbitrary reserved and padding bytes, store slack covering all sizes mod 8, empty/short payloads; every 20th package (and every asset) also "
             "with its signature header cleared (Header::clear) / replaced by Header::new_empty() in memory before writing (op pkgrtv); 30% damaged or truncated inputs "
-            "(every value class of the magic/version bytes) which are mostly rejected (property silent: dontcare). Non-trivial = not rejected for "
+            "(every value class of the magic/version bytes) which are mostly rejected (property silent: dontcare). Entry points and source / sink kinds (op openrt01, every asset / fixture, "
+            "every 25th generated package and 120 generated packages LARGER than std's 8192-byte BufReader capacity with the mark inside the signature header, the main index, the main store "
+            "or the payload, total lengths 8191 / 8192 / 8193 / 16384, some cut at 8192 +- 3): Package::parse on a slice, on an io::Cursor, Package::open on a file (&Path and &str) must give the SAME value "
+            "(metadata and content) whose written form is canon(input); Package::write_file of it must leave exactly those bytes in the file and Package::open of that file the same value "
+            "(model: Io.parseChunked under an empty / an 8192-chunk script, Io.writeFile 8192 into an accepting sink). Non-trivial = not rejected for "
             "plain end-of-input; distinct = distinct request lines.",
     "exhaustive": False,
     "shards": {"quick": 4, "thorough": 16},
-    "trusted_base": ["std: read_exact / read_to_end / take semantics on in-memory sources (modelled as list take/drop)",
+    "trusted_base": ["std: read_exact / read_to_end / take semantics on in-memory sources (modelled as list take/drop); BufReader<File> / BufWriter<File> of capacity 8192 as "
+                     "chunk / response scripts (Model/Io.lean, Model/BufWriter.lean; exercised by openrt01 on real files)",
                      "String::from_utf8_lossy (executable model in Model/Utf8.lean, exercised by the correspondence only)"],
     "assumptions": COMMON_ASSUME,
     "level_text": "Theorem package_roundtrip: for EVERY byte string the parser model accepts (unbounded entry counts / store sizes, all 10 types), "
